@@ -116,3 +116,41 @@ Print Assumptions C19_source_init_is_rp_init.
 Example C19_source_init_is_rp_init_dt : _ := @src_init_is_rp_init_dt.
 Print Assumptions C19_source_init_is_rp_init_dt.
 Example C19_source_init_then_text : _ := ex_init_text.
+
+(* ---- tie C (third extension, tag ical): the time logic of _parse_vevent as the code has it.
+   _dt_to_timestamp, _phase_base and two slices of _parse_vevent (the DTSTART / DTEND / DURATION
+   resolution up to the RFC 5545 3.3.6 end of a single event; the start handed to
+   RecurringPattern) are translated from their source text (Gen/Source.v: g_ical_...), the
+   icalendar / datetime objects being parameters instantiated with the library model of
+   Model/IcalSrc.v; Proofs/GenEq_ical.v. ---- *)
+From CG Require Import Model.IcalSrc Proofs.GenEq_ical.
+
+Example C19_source_dt_to_timestamp_is_ts_of : _ := g_ical_dt_to_timestamp_eq.
+Print Assumptions C19_source_dt_to_timestamp_is_ts_of.
+Example C19_source_phase_base_is_model : _ := g_ical_phase_base_eq.
+Print Assumptions C19_source_phase_base_is_model.
+(* (start_dt, is_all_day, start_ts, end_ts, duration_seconds) of the code = the model's
+   ve_dtstart, is_date, ts_of, static_end_ts, duration_of, for DTEND / DURATION present or not *)
+Example C19_source_parse_times_is_model : _ := g_ical_parse_times_eq.
+Print Assumptions C19_source_parse_times_is_model.
+Example C19_source_parse_times_on_vevents : _ := g_ical_parse_times_vevent.
+Print Assumptions C19_source_parse_times_on_vevents.
+Example C19_source_parse_times_no_dtstart : _ := g_ical_parse_times_no_dtstart.
+(* time-of-day start vs anchored start *)
+Example C19_source_parse_start_is_model : _ := g_ical_parse_start_eq.
+Print Assumptions C19_source_parse_start_is_model.
+Example C19_source_of_vevent_recurring : _ := of_vevent_recurring_via_source.
+Print Assumptions C19_source_of_vevent_recurring.
+(* the tz and the EXDATE list handed to RecurringPattern *)
+Example C19_source_parse_tz_is_model : _ := g_ical_parse_tz_zone.
+Print Assumptions C19_source_parse_tz_is_model.
+Example C19_source_parse_exdates_is_model : _ := g_ical_parse_exdates_eq.
+Print Assumptions C19_source_parse_exdates_is_model.
+
+(* _interval_to_vevent, the whole function (Proofs/GenEq_ical2.v): what is written for an item —
+   DTSTART of a pattern (anchor wall clock / phase base), DATE values for all-day UTC patterns,
+   DURATION, RRULE, EXDATEs, DTSTART / DTEND of a static event, the four optional texts — is the
+   model's to_vevent; ValueError exactly where the model has None *)
+From CG Require Import Proofs.GenEq_ical2.
+Example C19_source_interval_to_vevent_is_model : _ := g_ical_interval_to_vevent_eq.
+Print Assumptions C19_source_interval_to_vevent_is_model.
